@@ -597,7 +597,11 @@ fn main() {
             // or to a computed value)
             let same_as_unfaulted = m.get("none").is_some_and(|o| o == out_rel);
             let determined_conflict = (fault == "conflicting-public-value" && consumer.ends_with("+expected-digest")) || (fault == "asserted-relation-violated" && !consumer.starts_with("alu-assert-bool"));
-            if out_rel.starts_with("run:Ok") && same_as_unfaulted && out_dev.as_deref() == Some(out_rel.as_str()) && !determined_conflict {
+            // a vector of the wrong length is refused by the setter whatever the circuit does with
+            // the values: never "redundant" (a setter that truncated the vector would otherwise
+            // reproduce the unfaulted witness and pass as redundant)
+            let length_fault = matches!(fault.as_str(), "public-long" | "private-long" | "public-short" | "private-short");
+            if out_rel.starts_with("run:Ok") && same_as_unfaulted && out_dev.as_deref() == Some(out_rel.as_str()) && !determined_conflict && !length_fault {
                 rep.add(CaseResult::held(key, false).count(format!("redundant-input/{fault}"), 1));
                 continue;
             }
